@@ -24,7 +24,7 @@ RULE = (
     "with >= 2 fields; distinct = distinct (hierarchy source, order, first accessor)"
 )
 ASSUMPTIONS = ["dataclass field merge order computed from the spec is cross-checked against dataclasses.fields on every class"]
-MUST_SEE = ["derived_init_false_properties", "returned_sequence_mutated_by_caller", "same_named_class_pairs", "equal_twin_with_reused_id", "explicit_hash_flag", "init_false_and_compare_false", "subclass_first", "base_first", "falsy_children", "empty_tuples", "overrides", "positional_calls", "multiple_inheritance", "accessor_calls"]
+MUST_SEE = ["foreign_node_class_named_like_a_module_level_enum", "derived_init_false_properties", "returned_sequence_mutated_by_caller", "same_named_class_pairs", "equal_twin_with_reused_id", "explicit_hash_flag", "init_false_and_compare_false", "subclass_first", "base_first", "falsy_children", "empty_tuples", "overrides", "positional_calls", "multiple_inheritance", "accessor_calls"]
 CONFIG = {
     "quick": {"shards": 16, "hierarchies": 14, "watchdog_s": 300},
     "thorough": {"shards": 32, "hierarchies": 150, "watchdog_s": 3000},
@@ -422,6 +422,11 @@ def run_shard(ctx):
             grng.setstate(state)
             specs = gen_hierarchy(grng, P)
             U = Universe(f"verif_c12_{P}", specs, prelude_extra=PRELUDE_EXTRA.replace("{P}", P), postponed=(ci % 2 == 1))
+            if ci % 4 == 3 or (ci % 4 == 0 and case % 2):
+                # elsewhere in the process (a plug-in, another grammar, a function scope) a NODE class bears the simple name
+                # that is an enum in this module: names in this module's annotations mean this module's objects
+                ctx.count("foreign_node_class_named_like_a_module_level_enum")
+                exec(compile(f"from dataclasses import dataclass\nfrom pyoak.node import ASTNode\n\n\n@dataclass(frozen=True)\nclass {P}Color(ASTNode):\n    v: int = 0\n", "<c12 foreign namespace>", "exec", dont_inherit=True), {"__name__": f"verif_c12_foreign_{P}"})
             try:
                 U.exec()
             except Exception as e:  # noqa: BLE001
